@@ -45,6 +45,7 @@ Up == /\ IsEvent("up") /\ phase = "setup"
       /\ phase' = "up"
       /\ UNCHANGED <<closeSeen, closeReturned, pending, bornClosed, stopped, finishing, gen, starget, stopReq, svc>>
 ServeRet == /\ IsEvent("serve_ret") /\ Call("serve") \in pending /\ pending' = pending \ {Call("serve")}
+            /\ Ev.out \in {"returned", "already_running", "closed_error"}     \* anything else ("error:<type>") is not a lifecycle answer
             /\ IF Ev.a \in finishing
                THEN Ev.out # "already_running" /\ finishing' = finishing \ {Ev.a} /\ UNCHANGED <<owner, phase, refused, bornClosed, stopped>>
                ELSE IF Ev.a \in refused
